@@ -137,7 +137,8 @@ partial def main (args : List String) : IO UInt32 := do
     -- a module that verifies: live frame records followed beside the machine (`ghostNext`), `stepOkB` per step
     -- (only when NMDRV_STEPOK is set: the check walks all live records on every step, checks/c07.py asks for it)
     let sideOn := (← IO.getEnv "NMDRV_STEPOK").isSome
-    let hmOpt : Option Never.Ver.HMap := if !sideOn then none else match Never.Ver.verifyH md0 with | .ok (_, hm) => some hm | .error _ => none
+    -- (the certificate depends on the entry parameters: PUSH_PARAM pushes `params.length` slots; it is recomputed per call)
+    let mut hmOpt : Option Never.Ver.HMap := if !sideOn then none else match Never.Ver.verifyH md0 with | .ok (_, hm) => some hm | .error _ => none
     let mut recs : List Never.Ver.Rec := []
     let mut sideChecked : Nat := 0
     let mut sideFails : Nat := 0
@@ -146,7 +147,9 @@ partial def main (args : List String) : IO UInt32 := do
       let sp0 := vm.sp
       let wasInit := vm.initialized
       match pending with
-      | (ea, ps) :: rest => md := { md0 with entryAddr := ea, params := ps }; pending := rest
+      | (ea, ps) :: rest =>
+        md := { md0 with entryAddr := ea, params := ps }; pending := rest
+        if sideOn then hmOpt := match Never.Ver.verifyH md with | .ok (_, hm) => some hm | .error _ => none
       | [] => pure ()
       vm := beginExecute md vm
       -- run until running ≠ 1
